@@ -734,10 +734,6 @@ func (d Decimal) Uint32() (uint32, bool) {
 		return math.MaxUint32, false
 	}
 
-	if d.Signbit() {
-		return 0, false
-	}
-
 	sig, exp := d.decompose()
 	exp -= exponentBias
 
@@ -758,6 +754,11 @@ func (d Decimal) Uint32() (uint32, bool) {
 	for sig[1] == 0 && exp > 0 {
 		sig = sig.mul64(10)
 		exp--
+	}
+
+	if d.Signbit() {
+		// only values in (-1, 0] truncate to an integer that fits
+		return 0, sig[0]|sig[1] == 0
 	}
 
 	if sig[1] != 0 || exp != 0 {
@@ -789,10 +790,6 @@ func (d Decimal) Uint64() (uint64, bool) {
 		return math.MaxUint64, false
 	}
 
-	if d.Signbit() {
-		return 0, false
-	}
-
 	sig, exp := d.decompose()
 	exp -= exponentBias
 
@@ -813,6 +810,11 @@ func (d Decimal) Uint64() (uint64, bool) {
 	for sig[1] == 0 && exp > 0 {
 		sig = sig.mul64(10)
 		exp--
+	}
+
+	if d.Signbit() {
+		// only values in (-1, 0] truncate to an integer that fits
+		return 0, sig[0]|sig[1] == 0
 	}
 
 	if sig[1] != 0 || exp != 0 {
